@@ -32,8 +32,12 @@ func TestVerifC18(t *testing.T) {
 	kit.Run(t, "C18", "jwt-mutations", kit.N(240, 5000), jwtMutationCase)
 	// ---- JWT gate: two secrets, long request sequences against one gate (history counters, both orders)
 	kit.Run(t, "C18", "jwt-rotation", kit.N(600, 10000), jwtRotationCase)
+	// ---- JWT gate: the SAME tokens presented to ONE gate while the jwt clock moves (before nbf, inside, after exp)
+	kit.Run(t, "C18", "jwt-timetravel", kit.N(300, 6000), jwtTimeTravelCase)
 	// ---- strict content security: one signed request and every single-field mutation of it
 	kit.Run(t, "C18", "cs-mutations", kit.N(100, 2000), csMutationCase)
+	// ---- strict content security: several gates with different key sets in one process, every key to every gate
+	kit.Run(t, "C18", "cs-gates", kit.N(12, 240), csGatesCase)
 	// ---- non-strict content security: observed only
 	kit.Run(t, "C18", "cs-nonstrict", kit.N(12, 200), csNonStrictCase)
 	// ---- encryption handler: every payload size 0..4096 (exhaustive in both tiers)
@@ -50,5 +54,7 @@ func TestVerifC18(t *testing.T) {
 	kit.Run(t, "C18", "cryption-misc", kit.N(150, 2500), cryptionMiscCase)
 	// ---- end to end through rest.Server
 	kit.Run(t, "C18", "e2e", kit.N(4, 24), e2eCase)
+	// ---- end to end: several signature / JWT route groups with different keys / secrets on one server, time travel
+	kit.Run(t, "C18", "e2e-groups", kit.N(8, 48), e2eGroupsCase)
 	kit.End()
 }
